@@ -750,11 +750,7 @@ func (p *PacketSnifferPool) TakeFlowFamilyBufferedPackets(key PacketSnifferKey) 
 	if p == nil {
 		return nil
 	}
-	value, ok := p.flowFamilies.Load(key.FlowFamilyKey())
-	if !ok {
-		return nil
-	}
-	value.(*packetSnifferFlowFamilyRef).rangeMembers(func(_ PacketSnifferKey, sniffer *PacketSniffer) bool {
+	take := func(sniffer *PacketSniffer) {
 		sniffer.Mu.Lock()
 		if data := sniffer.Data(); len(data) > 1 {
 			for _, d := range data[1:] {
@@ -765,6 +761,18 @@ func (p *PacketSnifferPool) TakeFlowFamilyBufferedPackets(key PacketSnifferKey) 
 			sniffer.CompactPacketState()
 		}
 		sniffer.Mu.Unlock()
+	}
+	// A session whose Initial carries no cacheable DCID (length 0 or more than 20) is keyed by the
+	// bare {src,dst} pair and is not registered as a member of any family: drain it as well.
+	if sniffer := p.Get(key.FlowFamilyKey()); sniffer != nil {
+		take(sniffer)
+	}
+	value, ok := p.flowFamilies.Load(key.FlowFamilyKey())
+	if !ok {
+		return pkts
+	}
+	value.(*packetSnifferFlowFamilyRef).rangeMembers(func(_ PacketSnifferKey, sniffer *PacketSniffer) bool {
+		take(sniffer)
 		return true
 	})
 	return pkts
